@@ -15,6 +15,7 @@ sys.path.insert(0, HERE)
 
 from rig import stubs  # noqa: E402  (puts $VERIF_REPO first on sys.path)
 import symx  # noqa: E402
+import symx.summary  # noqa: E402
 from symx.engine import explore, run_concrete, signature, HarnessError, ExploreResult  # noqa: E402
 
 _now = stubs._real_time
@@ -104,6 +105,21 @@ def run_property(prop, tier, seed, only=None):
         max_paths = h.max_paths[0] if tier == 'quick' else h.max_paths[1]
         res = explore(h.scenario, params, harness=h.name, seed=seed, timeout=timeout, max_paths=max_paths,
                       validate_every=h.validate_every, classify=h.classify)
+        degraded = False
+        if res.failures and not symx.summary.CONCRETE[0]:
+            # a failure seen symbolically only (typically an exception raised because the code handles a merged
+            # symbolic value in a way no proxy can follow): explore again with summaries turned back into plain
+            # values by forking, and judge that exploration instead
+            leaks = [sig for sig, f in sorted(res.failures.items())
+                     if (lambda c: c is None or c[0] != f['tag'])(run_concrete(h.scenario, params, f['inputs'])[0])]
+            if leaks:
+                symx.summary.CONCRETE[0] = True
+                try:
+                    res = explore(h.scenario, params, harness=h.name, seed=seed, timeout=timeout,
+                                  max_paths=max_paths, validate_every=h.validate_every, classify=h.classify)
+                finally:
+                    symx.summary.CONCRETE[0] = False
+                degraded = True
         errors.extend(res.errors)
         # vacuity: every declared tag must be reached by a feasible path (the reachability twin of the harness)
         if res.exhaustive or res.paths > 0:
@@ -150,7 +166,9 @@ def run_property(prop, tier, seed, only=None):
                             'wall_s': round(res.wall_s, 2), 'exhaustive': res.exhaustive,
                             'cross_validated': res.validated, 'reach': res.reached,
                             'failure_signatures': sorted(res.failures),
-                            'outcome_classes': len(res.obs_classes) or None})
+                            'outcome_classes': len(res.obs_classes) or None,
+                            'summaries': 'forked back into plain values (a symbolic-only failure was met)'
+                            if degraded else 'merged'})
         total.merge(res)
     # --- checks of the module that are not path explorations (Float64 SMT queries)
     extra_ev = {}
